@@ -570,6 +570,203 @@ def text_routes(rng, n):
     return out
 
 
+# ------------------------------------------------------------------------------- (C) boundary lengths
+
+FLOW_PORT_RANGES = (range(104, 126), range(2028, 2048))  # component blocks around 240 and around 4095 octets
+
+
+def build_flow(afi_n, safi_n, ports, wide):
+    """destination prefix + `ports` destination-port tests (`wide` of them two octets wide) [+ rd]"""
+    from exabgp.bgp.message.update.nlri.flow import Flow, Flow4Destination, Flow6Destination, FlowDestinationPort, NumericOperator
+    from exabgp.bgp.message.update.nlri.qualifier import RouteDistinguisher
+    from exabgp.protocol.family import AFI, SAFI
+    from exabgp.protocol.ip import IPv4, IPv6
+    from exabgp.protocol.resource import NumericValue
+
+    afi, safi = AFI.from_int(afi_n), SAFI.from_int(safi_n)
+    flow = Flow.make_flow(afi, safi)
+    if afi_n == 1:
+        flow.add(Flow4Destination.make_prefix4(IPv4.pton('10.0.0.0'), 24))
+    else:
+        flow.add(Flow6Destination.make_prefix6(IPv6.pton('2001:db8::'), 32, 0))
+    values = []
+    for i in range(ports):
+        v = 1000 + i if i < wide else 1 + (i % 200)
+        values.append(v)
+        flow.add(FlowDestinationPort(NumericOperator.EQ, NumericValue(v)))
+    if safi_n == 134:
+        flow.rd = RouteDistinguisher.make_from_elements('65000', 1)
+    return flow, values
+
+
+def flow_boundary(fail, quick):
+    """FlowSpec NLRIs whose component block takes EVERY length in a window around 240 (one/two octet length
+    prefix, RFC 8955 4.1) and up to the 4095 maximum, for ipv4/ipv6 x flow/flow-vpn, built by the Flow factory."""
+    import re
+    from exabgp.bgp.message.action import Action
+    from exabgp.bgp.message.notification import Notify
+    from exabgp.bgp.message.open.capability.negotiated import Negotiated
+    from exabgp.bgp.message.update.nlri.nlri import NLRI
+    from exabgp.protocol.family import AFI, SAFI
+
+    neg = Negotiated.UNSET
+    n = 0
+    wire_lengths = collections.defaultdict(set)
+    for afi_n in (1, 2):
+        for safi_n in (133, 134):
+            fam = '{}/{}'.format(AFI.from_int(afi_n), SAFI.from_int(safi_n))
+            for rng_ports in FLOW_PORT_RANGES:
+                for ports in rng_ports:
+                    for wide in (0, 1):
+                        case = {'family': fam, 'ports': ports, 'two_octet_ports': wide,
+                                'rule': 'destination prefix + %d destination-port tests%s' % (ports, ' + rd 65000:1' if safi_n == 134 else '')}
+                        try:
+                            flow, values = build_flow(afi_n, safi_n, ports, wide)
+                            wire = bytes(flow.pack_nlri(neg))
+                        except Notify:
+                            continue  # larger than the encoding allows: refused, nothing on the wire
+                        except Exception as exc:
+                            fail(f'boundary:flow-build-exception:{fam}', 'building / encoding a FlowSpec rule raised', dict(case, error=f'{type(exc).__name__}: {exc}'[:200]))
+                            continue
+                        n += 1
+                        wire_lengths[fam].add(len(wire))
+                        case['wire_octets'] = len(wire)
+                        case['wire_head'] = wire[:4].hex()
+                        sig_len = 'around-240' if len(wire) < 300 else 'around-4095'
+                        try:
+                            dec, left = NLRI.unpack_nlri(AFI.from_int(afi_n), SAFI.from_int(safi_n), wire, Action.ANNOUNCE, None, neg)
+                        except Exception as exc:
+                            fail(f'boundary:flow-roundtrip:{fam}:{sig_len}', 'ExaBGP refuses the FlowSpec NLRI it encoded', dict(case, error=f'{type(exc).__name__}: {exc}'[:200]))
+                            continue
+                        if dec is NLRI.INVALID or bytes(left):
+                            fail(f'boundary:flow-roundtrip:{fam}:{sig_len}', 'the FlowSpec NLRI ExaBGP encoded does not decode (invalid / bytes left over)',
+                                 dict(case, left_over=len(bytes(left))))
+                            continue
+                        if not (dec == flow) or dec.index() != flow.index() or hash(dec) != hash(flow):
+                            fail(f'boundary:flow-roundtrip:{fam}:{sig_len}', 'decode(encode(flow)) != flow (==, index or hash)', dict(case, decoded=str(dec)[:200]))
+                            continue
+                        got = [int(x) for x in re.findall(r'=(\d+)', str(dec).split('destination-port', 1)[-1])]
+                        if got != values:
+                            fail(f'boundary:flow-values:{fam}:{sig_len}', 'the decoded rule does not hold the port tests that were asked for',
+                                 dict(case, decoded_ports=len(got), asked=len(values)))
+                        if bytes(dec.pack_nlri(neg)) != wire:
+                            fail(f'boundary:flow-reencode:{fam}:{sig_len}', 'encode(decode(bytes)) != bytes', case)
+                        if str(dec) != str(flow) or dec.json() != flow.json():
+                            fail(f'boundary:flow-rendering:{fam}', 'str()/json() differ between the rule and its decoded form', case)
+    return n, {f: [min(v), max(v), len(v)] for f, v in wire_lengths.items()}
+
+
+ASPATH_COUNTS = (1, 254, 255, 256, 257, 510, 511, 512)
+
+
+def aspath_factory_boundary(fail, quick):
+    """AS_PATH / AS4_PATH segments of 254..512 ASNs of every segment type, built by make_aspath, on 4-byte and
+    2-byte sessions (2-byte sessions with and without ASNs above 65535, which adds AS4_PATH)."""
+    from exabgp.bgp.message.open.asn import ASN
+    from exabgp.bgp.message.open.capability.negotiated import Negotiated
+    from exabgp.bgp.message.update.attribute.attribute import Attribute
+    from exabgp.bgp.message.update.attribute.aspath import ASPath, SEQUENCE, SET, CONFED_SEQUENCE, CONFED_SET
+    from exabgp.bgp.message.update.attribute.collection import AttributeCollection
+
+    n = 0
+    for asn4 in (True, False):
+        neg = Negotiated._create_unset()
+        neg.asn4 = asn4
+        neg.local_as = ASN(65000)
+        neg.peer_as = ASN(65001)
+        for kind in (SEQUENCE, SET, CONFED_SEQUENCE, CONFED_SET):
+            for count in ASPATH_COUNTS:
+                for base in ((1000, 70000) if asn4 else (1000,)):
+                    asns = [ASN(base + i) for i in range(count)]
+                    expected = [(kind.ID, base + i) for i in range(count)]
+                    case = {'segment': kind.__name__, 'asns': count, 'first_asn': base, 'asn4_session': asn4}
+                    sig = f'boundary:as-path:{kind.__name__}:{"asn4" if asn4 else "asn2"}'
+                    try:
+                        original = ASPath.make_aspath([kind(asns)], asn4=asn4)
+                        wire = bytes(original.pack_attribute(neg))
+                        decoded = AttributeCollection().parse(wire, neg)[Attribute.CODE.AS_PATH]
+                    except Exception as exc:
+                        fail(sig, 'building, encoding or decoding an AS_PATH raised', dict(case, error=f'{type(exc).__name__}: {exc}'[:200]))
+                        continue
+                    n += 1
+                    got = [(seg.ID, int(a)) for seg in decoded.aspath for a in seg]
+                    if got != expected:
+                        missing = [a for (_, a) in expected if (kind.ID, a) not in got]
+                        fail(sig, 'the decoded AS_PATH is not the list of AS numbers that was given to the factory',
+                             dict(case, decoded_asns=len(got), missing=missing[:5], segment_sizes=[len(s) for s in decoded.aspath]))
+                        continue
+                    if any(len(seg) > 255 for seg in decoded.aspath):
+                        fail(sig, 'segment longer than 255', case)
+                    if not (decoded == original):
+                        fail(sig + ':not-equal', 'decode(encode(as-path)) != as-path', case)
+                    if bytes(decoded.pack_attribute(neg)) != wire:
+                        fail(sig + ':reencode', 'encode(decode(bytes)) != bytes', case)
+    return n
+
+
+def text_attribute_boundary(fail, quick, covered_attrs):
+    """attribute values at the one-octet / extended length switch (255/256 octets) and AS paths around the
+    255-ASN segment limit, through the text grammar and the UPDATE encoder/decoder, on a 4-byte and a 2-byte session"""
+    import copy as _copy
+    import re
+    from exabgp.configuration.check import _negotiated
+    from exabgp.configuration.setup import create_minimal_configuration
+    from exabgp.util.enumeration import TriState
+
+    specs = []
+    for k in (62, 63, 64, 65):
+        specs.append(('community', 8, k, [f'65000:{i}' for i in range(k)], r'\d+:\d+'))
+        specs.append(('cluster-list', 10, k, [f'10.0.{i // 256}.{i % 256}' for i in range(k)], r'\d+\.\d+\.\d+\.\d+'))
+    for k in (20, 21, 22):
+        specs.append(('large-community', 32, k, [f'65000:1:{i}' for i in range(k)], r'\d+:\d+:\d+'))
+    for k in (30, 31, 32, 33):
+        specs.append(('extended-community', 16, k, [f'target:65000:{i}' for i in range(k)], r'target:\d+:\d+'))
+    for k in ASPATH_COUNTS:
+        specs.append(('as-path', 2, k, [str(1000 + i) for i in range(k)], r'\d+'))
+        specs.append(('as-path', 2, k, [str(70000 + i) for i in range(k)], r'\d+'))
+    n = 0
+    for asn4 in (True, False):
+        tconf = create_minimal_configuration(families='ipv4 unicast')
+        nb = _copy.deepcopy(next(iter(tconf.neighbors.values())))
+        nb.session.local_as = nb.session.peer_as
+        if not asn4:
+            nb.capability.asn4 = TriState.FALSE
+        negs = _negotiated(nb)
+        if bool(negs[1].asn4) != asn4:
+            raise RuntimeError(f'could not build a session with asn4={asn4}')
+        for word, code, k, tokens, pattern in specs:
+            text = f'route 10.0.0.0/24 next-hop 1.2.3.4 {word} [ ' + ' '.join(tokens) + ' ]'
+            case = {'attribute': word, 'elements': k, 'first': tokens[0], 'asn4_session': asn4, 'text': text[:120] + ' ...'}
+            sig = f'boundary:{word}:{"asn4" if asn4 else "asn2"}'
+            try:
+                route = tconf.parse_route_text(text)[0]
+                obs = update_roundtrip(nb, route, negs)
+            except Exception as exc:
+                fail(sig + ':exception', 'parsing, encoding or decoding a boundary-length attribute raised', dict(case, error=f'{type(exc).__name__}: {exc}'[:300]))
+                continue
+            if 'error' in obs or code not in obs['attrs2']:
+                fail(sig, 'the attribute is missing from the decoded UPDATE', dict(case, error=obs.get('error', 'attribute absent')))
+                continue
+            n += 1
+            covered_attrs[code] += 1
+            if code == 2 and not asn4 and int(tokens[0]) > 65535:
+                covered_attrs[17] += 1  # the 2-byte session carried the path as AS_PATH (AS_TRANS) + AS4_PATH
+            a1, a2 = route.attributes[code], obs['attrs2'][code]
+            case['attribute_octets'] = len(bytes(a1.pack_attribute(negs[1])))
+            got = re.findall(pattern, str(a2))
+            if got != tokens:
+                fail(sig, 'the decoded attribute does not hold the values that were written',
+                     dict(case, decoded_elements=len(got), missing=[t for t in tokens if t not in got][:5]))
+                continue
+            if not attr_same(a1, a2, negs[1]):
+                fail(sig + ':not-equal', 'decode(encode(attribute)) != attribute', dict(case, decoded=str(a2)[:120]))
+            if obs['pack2'] != obs['pack1']:
+                fail(sig + ':reencode', 'encode(decode(UPDATE bytes)) != bytes', case)
+            if obs['render_a'] != obs['render_b']:
+                fail(sig + ':rendering', 'str()/json() of the same bytes decoded twice differ', case)
+    return n
+
+
 # ------------------------------------------------------------------------------- the check
 
 
@@ -625,6 +822,16 @@ def check(tier, seed):
                     values.append({'afi': afi, 'safi': safi, 'pid': pid, 'labels': [] if safi < 4 else [1048575],
                                    'rd': [0, 2, 255, 255, 255, 255, 255, 255] if safi == 128 else None, 'mask': mask,
                                    'ip': [255] * ((mask + 7) // 8) + [0] * ((4 if afi == 1 else 16) - (mask + 7) // 8), 'stream': 'boundary'})
+
+    # label stacks at the limit of the length octet (24 * labels + 64 (rd) + prefix bits <= 255)
+    for afi, safi, nlab, mask in ((1, 4, 10, 15), (1, 4, 9, 32), (2, 4, 10, 15), (2, 4, 5, 128), (2, 4, 9, 39),
+                                  (1, 128, 7, 23), (1, 128, 6, 32), (2, 128, 7, 23), (2, 128, 2, 128), (2, 128, 5, 71)):
+        for pid in (None, [255, 255, 255, 255]):
+            size = (mask + 7) // 8
+            values.append({'afi': afi, 'safi': safi, 'pid': pid, 'labels': [1048575 - i for i in range(nlab)],
+                           'rd': [0, 2, 255, 255, 255, 255, 255, 255] if safi == 128 else None, 'mask': mask,
+                           'ip': [255] * (mask // 8) + ([(0xFF << (8 - mask % 8)) & 0xFF] if mask % 8 else []) + [0] * ((4 if afi == 1 else 16) - size),
+                           'stream': 'boundary'})
 
     objs = []
     enc_cases = []
@@ -1027,6 +1234,33 @@ def check(tier, seed):
 
         run.obligation('text-route pass (IP families x attributes through the UPDATE encoder/decoder) ran', False, traceback.format_exc()[-1500:])
 
+    # ---------------------------------------------------------------- (C) boundary lengths
+    n_c = 0
+    t3 = time.time()
+    try:
+        n_flow, flow_lengths = flow_boundary(fail, quick)
+        n_asp = aspath_factory_boundary(fail, quick)
+        n_txt = text_attribute_boundary(fail, quick, covered_attrs)
+        n_c = n_flow + n_asp + n_txt
+        for f in flow_lengths:
+            covered_fams[f] += 1
+        covered_attrs[2] += n_asp
+        run.coverage['boundary_lengths'] = {
+            'flow_objects': n_flow, 'flow_wire_octets_min_max_distinct': flow_lengths,
+            'flow_rule': 'every component-block length in a window around 240 (one/two octet prefix) and up to 4095, ipv4/ipv6 x flow/flow-vpn',
+            'as_path_factory_objects': n_asp, 'as_path_segment_sizes': list(ASPATH_COUNTS),
+            'as_path_rule': 'SEQUENCE/SET/CONFED_SEQUENCE/CONFED_SET, 2- and 4-byte sessions, ASNs below and above 65535',
+            'text_attribute_objects': n_txt,
+            'text_rule': 'community/cluster-list 62-65, large-community 20-22, extended-community 30-33 elements (attribute 248..264 octets), '
+                         'as-path 254..512 ASNs, 4-byte and 2-byte sessions; label stacks at the 255-bit length octet in part A',
+            'wall_s': round(time.time() - t3, 1)}
+        run.obligation(f'boundary-length pass ran ({n_flow} FlowSpec NLRIs, {n_asp} factory AS paths, {n_txt} text attributes)',
+                       n_flow >= 250 and n_asp >= 90 and n_txt >= 60, f'{n_flow} / {n_asp} / {n_txt} objects reached the round trip')
+    except Exception:
+        import traceback
+
+        run.obligation('boundary-length pass ran', False, traceback.format_exc()[-1500:])
+
     uncovered_f = [f for f in fams if not covered_fams.get(f)]
     uncovered_a = [a for a in attr_ids if not covered_attrs.get(a)]
     run.coverage['registered_families'] = {f: covered_fams.get(f, 0) for f in fams}
@@ -1040,7 +1274,7 @@ def check(tier, seed):
     total_fail = sum(oracle_fail.values())
     run.obligation(
         f'property oracle on the real objects: round trips ({n_oracle} prefix NLRIs, {n_b} configured routes, {n_t} text routes), '
-        f'eq => index/hash ({n_eq} pairs), index injectivity ({n_coll} objects incl. {len(pairs)} near-colliding pairs), rendering determinism',
+        f'{n_c} boundary-length objects, eq => index/hash ({n_eq} pairs), index injectivity ({n_coll} objects incl. {len(pairs)} near-colliding pairs), rendering determinism',
         total_fail == 0, f'{total_fail} failing checks: {dict(oracle_fail)}')
 
     # ---------------------------------------------------------------- coverage
@@ -1052,7 +1286,7 @@ def check(tier, seed):
     distinct = len({(bytes(c['pack_t']), c['value']['afi'], c['value']['safi']) for c in enc_cases}) + len(
         {(bytes(d['data']), d['afi'], d['safi'], d['withdraw'], d['addpath']) for d in dec_cases if len(d['data']) > 1})
     run.coverage.update({
-        'evaluations': len(enc_cases) * 3 + len(dec_cases) + len(spec_cases) + n_b + n_t + n_eq,
+        'evaluations': len(enc_cases) * 3 + len(dec_cases) + len(spec_cases) + n_b + n_t + n_eq + n_c,
         'distinct_nontrivial': distinct,
         'rule': 'prefix NLRIs of the 8 IP families built by the factory methods (and re-built through the text grammar) from random '
                 'and boundary values (masks 0/1/7/8/9/.../32 and up to /128, path-id none/0/1/2^32-1/"no-p"/"disa"/random, 1-3 labels incl. '
